@@ -340,7 +340,8 @@ class Check:
     def __init__(self, spec, tier, seed):
         self.spec = spec; self.tier = tier; self.seed = seed
         self.prop = spec.PROP
-        self.bdir = os.path.join(BUILD, self.prop)
+        self.tag = os.environ.get('VERIF_BUILD_TAG', '')   # lets a scratch run (mutation/seeded test) coexist with a regular run
+        self.bdir = os.path.join(BUILD, self.prop + self.tag)
         os.makedirs(self.bdir, exist_ok=True)
         self.rdir = os.path.join(BUILD, 'replays')
         os.makedirs(self.rdir, exist_ok=True)
@@ -354,7 +355,7 @@ class Check:
     # -- replay files
     def write_replay(self, fam, case, reason, detail, extra=None):
         k = len(self.violations) + len(self.known)
-        name = '%s_%s_%d_%d.replay' % (self.prop, fam['name'] if fam else 'proof', self.seed, k)
+        name = '%s%s_%s_%d_%d.replay' % (self.prop, self.tag, fam['name'] if fam else 'proof', self.seed, k)
         path = os.path.join(self.rdir, name)
         with open(path, 'w') as f:
             f.write('# property %s\n# family %s\n# reason %s\n' % (self.prop, fam['name'] if fam else '-', reason))
@@ -587,8 +588,10 @@ class Check:
         ev = dict(property_id=self.prop, tier=self.tier, seed=self.seed, level=level, coverage=cov,
                   assumptions=list(getattr(spec, 'ASSUMPTIONS', [])), wall_s=round(wall, 2),
                   violations=len(self.violations))
-        os.makedirs(os.path.join(VERIF, 'evidence'), exist_ok=True)
-        with open(os.path.join(VERIF, 'evidence', self.prop + '.json'), 'w') as f:
+        # evidence/ is only written by runs against /repo itself; scratch runs (VERIF_REPO=worktree) write under _build/
+        evdir = os.path.join(VERIF, 'evidence') if os.path.realpath(REPO) == '/repo' and not self.tag else os.path.join(BUILD, 'evidence_scratch' + self.tag)
+        os.makedirs(evdir, exist_ok=True)
+        with open(os.path.join(evdir, self.prop + '.json'), 'w') as f:
             json.dump(ev, f, indent=1, default=str)
         for sig, what in self.known:
             log('KNOWN-FINDING: property=%s %s [%s]' % (self.prop, what, sig))
